@@ -9,7 +9,7 @@ RULE = ("finite-domain enumeration with rank<->case bijection, every case distin
         "first grammar check and carry an exponent or > 7 fraction digits, or are rejected by the range check; accepted/out-of-range "
         "integers (not the malformed ones).")
 DEADLINE = {"quick": 200, "thorough": 1500}
-PARTS = ["coord_rt", "ts_rt", "short", "grammar", "tsstr", "ints"]
+PARTS = ["coord_rt", "ts_rt", "short", "grammar", "tsstr", "ints", "history"]
 
 
 def build(ctx):
